@@ -1377,6 +1377,13 @@ fn worlds(thorough: bool) -> Vec<W> {
     v.push(W { built: build_af_world(&af_spec("c20-af-g64-sat3", 64, 30_000, 50_000, 5000, None)), kind: Kind::Af, fees: Fees::default(), depth: (2, 3), weight: 2.0 });
     // strongest control factor: the total rate passes 65 535 four groups from the reference and reaches the 10 % hard limit at five
     v.push(W { built: build_af_world(&af_spec("c20-af-g64-hot", 64, 350_000, 99_999, 5000, None)), kind: Kind::Af, fees: Fees::default(), depth: (2, 3), weight: 1.0 });
+    // zero-liquidity gaps (no full-range position): [-640,-256) [-256,128) gap [128,256) [256,640) — a swap leaves one range, crosses the
+    // gap in one skipped step and goes on trading in the next range, far from saturation (the group reached after the skip matters)
+    {
+        let mut gap = af_spec("c20-af-gap", 64, 350_000, 50_000, 5000, None);
+        gap.positions = vec![(-256, 128, false), (256, 640, true), (-640, -256, false)];
+        v.push(W { built: build_af_world(&gap), kind: Kind::Af, fees: Fees::default(), depth: (1, 3), weight: 1.0 });
+    }
     if thorough {
         // fine groups, wide core range, strong decay
         v.push(W { built: build_af_world(&af_spec("c20-af-g16-wide", 16, 350_000, 10_000, 9000, None)), kind: Kind::Af, fees: Fees::default(), depth: (2, 3), weight: 1.0 });
